@@ -412,6 +412,34 @@ def extract(repo):
     if not (len(sts) == 1 and re.fullmatch(r'self\.shared_state\(\)\.connection_error\.(get\(\)\.cloned\(\)|lock\(\)\.unwrap\(\)\.clone\(\))', sts[0])):
         raise AnchorLost('get_conn_error: unrecognised body')
 
+    # ---- ConnectionInner::shutdown: the guard must be its FIRST statement; every write failure goes to handle_connection_error
+    conn = Source(repo + '/h3/src/connection.rs')
+    body, spans['shutdown'] = fn_text(conn, 'shutdown')
+    sts = statements(body)
+    guard = r'ifletSome\(' + ID + r'\)=self\.get_conn_error\(\)\{returnErr\(self\.handle_connection_error\(\1\)\);\};?'
+    where = [i for i, st in enumerate(sts) if 'get_conn_error' in st]
+    if where == [0] and re.fullmatch(guard, sts[0]):
+        f['shutdown_guard'] = True
+    elif not where:
+        f['shutdown_guard'] = False
+    else:
+        raise AnchorLost('ConnectionInner::shutdown: get_conn_error is consulted, but not as the leading guard `%s`' % sts[where[0]][:120])
+    rest = sts[1:] if f['shutdown_guard'] else sts
+    exp = [r'ifletSome\(' + ID + r'\)=sent_closing\{if\*\1<=max_id\{returnOk\(\(\)\);\}\}',
+           r'\*sent_closing=Some\(max_id\);', r'self\.set_closing\(\);',
+           r'matchstream::write\(&mutself\.control_send,Frame::Goaway\(max_id\.into\(\)\)\)\.await\{.*\}']
+    if len(rest) != len(exp) or not all(re.fullmatch(e, st) for e, st in zip(exp, rest)):
+        raise AnchorLost('ConnectionInner::shutdown: unrecognised statements ' + str([st[:50] for st in rest]))
+    mm = re.search(r'match\s+stream::write\(', body)
+    for pat, ab in match_arms(inner(body[mm.start():])):
+        if pat == 'Ok(())':
+            want(re.fullmatch(r'Ok\(\(\)\)', ab), 'shutdown Ok arm', ab)
+        elif pat.startswith('Err('):
+            if not re.fullmatch(r'\{?Err\(self\.handle_connection_error\(.*\)\)\}?', ab):
+                raise AnchorLost('ConnectionInner::shutdown: a write failure does not go to handle_connection_error: ' + ab[:80])
+        else:
+            raise AnchorLost('ConnectionInner::shutdown: unrecognised arm ' + pat[:60])
+
     # ---- crate-wide: who else touches the cell / the waker, and how handles get their shared state
     sites = {'set_conn_error': [], 'cell_field': [], 'waker': [], 'fresh_state': [], 'wiring': []}
     for crate in ('h3', 'h3-datagram', 'h3-webtransport'):
@@ -486,6 +514,7 @@ def render(f):
          'Definition raise_body : list raise_op := %s.' % _ops('RO', f['raise_body']),
          'Definition store_first_wins : bool := %s.' % ('true' if f['store_first_wins'] else 'false'),
          'Definition convert_sets_memo : bool := %s.' % ('true' if f['convert_sets_memo'] else 'false'),
+         'Definition shutdown_guard : bool := %s.' % ('true' if f['shutdown_guard'] else 'false'),
          'Definition close_arms : list (origin_pat * code_src) := [%s].' % '; '.join('(%s, %s)' % a for a in f['close_arms']),
          'Definition convert_arms : list (origin_pat * conv_target) := [%s].' % '; '.join('(%s, %s)' % a for a in f['convert_arms']),
          '(* the stream side: both CloseStream helpers are `set_conn_error_and_wake; report convert(returned value)`; the',
